@@ -57,7 +57,10 @@ def cases(draw):
             'format': draw(st.sampled_from(['dist', 'dist', 'dist-gzip',
                                             'dist-bzip2', 'dist-zip'])),
             'nsrc': draw(st.integers(1, 3)),
-            'regen_first': draw(st.booleans())}
+            'regen_first': draw(st.booleans()),
+            # what appears before the dist target runs: a new match or a file
+            # that only the extra= pattern selects
+            'late': draw(st.sampled_from(['match', 'extra']))}
 
 
 def render(case, src):
@@ -192,9 +195,11 @@ def render(case, src):
         req.add('orig.txt')
     if 'extra_deps' in F:
         files['dep.stamp.in'] = 's\n'
+        files['tables/crc.inc'] = 'c\n'
         L.append("build_step('stamp.out', cmd=['touch', 'stamp.out'], "
-                 "extra_deps=['dep.stamp.in'])")
-        req.add('dep.stamp.in')
+                 "extra_deps=['dep.stamp.in', Path('tables/crc.inc', "
+                 "Root.srcdir)])")
+        req |= {'dep.stamp.in', 'tables/crc.inc'}
     if 'submodule' in F:
         files['sub/build.bfg'] = ("executable('subprog', ['s.c'], "
                                   "extra_deps=[header_file('../shared.h')])"
@@ -247,7 +252,11 @@ def prop_dist(rec):
                 # regenerates (lazily) before the archive is made
                 clock = sandbox.Clock(tmp)
                 clock.tick(tmp)
-                if 'find' in F:
+                if 'find' in F and case.get('late') == 'extra':
+                    sandbox.write_file(os.path.join(src, 'tree/a/late.md'),
+                                       'late doc\n')
+                    req.add('tree/a/late.md')
+                elif 'find' in F:
                     sandbox.write_file(os.path.join(src, 'tree/a/late.c'),
                                        'int late(void){return 0;}\n')
                     req.add('tree/a/late.c')
